@@ -2,17 +2,51 @@ package main
 
 const jsonNumberRx = `-?(0|[1-9][0-9]*)(\.[0-9]+)?([eE][+\-]?[0-9]+)?`
 
+// Duration JSON form per the property statement / proto3 JSON mapping:
+// optional sign, integer part without leading zeros, optional fraction of up
+// to nine digits (or a bare fraction with at least one digit), suffix `s`.
+const jsonDurationRx = `[+\-]?((0|[1-9][0-9]*)(\.[0-9]{0,9})?|\.[0-9]{1,9})s`
+
 func init() {
 	register(&Property{
 		ID:         "C21",
 		Level:      "other",
-		Technique:  "scanner-to-automaton abstract interpretation + language equivalence with the RFC 8259 number grammar (static)",
-		Explain:    "Decides structural necessary conditions of `protojson speaks exactly JSON`: the number scanner of the JSON tokenizer accepts exactly RFC 8259 `number` (automaton extracted from the source by abstract interpretation and compared for language inclusion both ways with the grammar), with no out-of-range index possible.",
-		NotCovered: "the string scanner and the token-sequencing table are covered only by the rules listed in DESIGN.md; Multiline/Indent equivalence of outputs is value-level.",
+		Technique:  "scanner-to-automaton abstract interpretation + language equivalence with the RFC 8259 number grammar; finite case analysis of the string scanners' switch conditions (static)",
+		Explain:    "Decides structural necessary conditions of `protojson speaks exactly JSON`: (1) the number scanner of the JSON tokenizer accepts exactly RFC 8259 `number` (automaton extracted from the source by abstract interpretation and compared for language inclusion both ways with the grammar), with no out-of-range index possible; (2) by finite case analysis of the string scanners' switch conditions: the decoder rejects every raw control character and invalid UTF-8 byte, accepts exactly the escape letters \"\\/bfnrtu with their RFC values, and requires a \\u escape for the low half of a surrogate pair; the encoder escapes every character JSON requires, with a letter that denotes it or a \\u followed by exactly four hex digits, and reports invalid UTF-8.",
+		NotCovered: "the token-sequencing state machine of Decoder.Read (commas/colons/nesting), literals true/false/null, Multiline/Indent equivalence of outputs, and the hex-digit check inside \\u (delegated to strconv.ParseUint).",
 		Quick:      all("./internal/encoding/json"),
 		Thorough:   all("./..."),
 		Run: func(c *Ctx) {
 			c.ruleScanner("R-SCAN-NUMBER", scannerSpec{key: "internal/encoding/json.parseNumber", regex: jsonNumberRx, what: "JSON number (RFC 8259 §6)", usePrefix: true})
+			c.ruleJSONEscapes("R-JSON-ESCAPES")
+		},
+	})
+	register(&Property{
+		ID:         "C22",
+		Level:      "other",
+		Technique:  "scanner-to-automaton abstract interpretation + language equivalence; SSA width-provenance dataflow; kind-context table conformance (static)",
+		Explain:    "Decides structural necessary conditions of exact JSON scalar decoding: (1) parseNumberParts, which splits a number into sign/integer/fraction/exponent for exact integer conversion, accepts exactly the RFC 8259 number language (same automaton comparison as the tokenizer's scanner, so both agree on what a number is); (2) no float32 value is produced by parsing at width 64 and narrowing (double rounding), the bitSize is threaded and guarded; (3) in every Kind-dependent branch of the JSON encoder and decoder the bitSize constants, Value constructors/accessors and writer methods match the Kind per the proto3 JSON table (32-bit integers as numbers, 64-bit integers as strings, width 32 for float).",
+		NotCovered: "normalizeToIntString's digit shifting and the range checks inside strconv (value-level arithmetic over runtime lengths); base64 variant acceptance; enum name/number lookup.",
+		Quick:      all("./encoding/protojson"),
+		Thorough:   all("./..."),
+		Run: func(c *Ctx) {
+			c.ruleScanner("R-SCAN-NUMBER-PARTS", scannerSpec{key: "internal/encoding/json.parseNumberParts", regex: jsonNumberRx, what: "JSON number (RFC 8259 §6)", usePrefix: true})
+			c.ruleFloatBits("R-FLOATBITS", inPkgs("internal/encoding/json", "encoding/protojson"), 1)
+			c.ruleKindContext("R-KIND-CONTEXT", []string{"encoding/protojson", "internal/encoding/json"}, 10)
+		},
+	})
+	register(&Property{
+		ID:         "C23",
+		Level:      "other",
+		Technique:  "scanner-to-automaton abstract interpretation + language equivalence with the documented Duration grammar; CFG dominance of range comparisons; dispatch-table agreement (static)",
+		Explain:    "Decides structural necessary conditions of the well-known-type JSON forms: (1) parseDuration accepts exactly the documented Duration grammar (optional sign, integer and/or fractional part with at most nine digits, suffix s; at least one digit) — automaton extracted from the source and compared both ways with the grammar, no out-of-range index; (2) Duration and Timestamp seconds/nanos are compared with both documented bounds before any JSON is written and before any parsed value is stored; (3) the encoder and decoder dispatch tables for well-known types cover the same message names and pair marshalX with unmarshalX.",
+		NotCovered: "the Timestamp grammar (delegated to time.Parse, see DESIGN.md §5 N1), Duration sign consistency and int64 arithmetic on values, FieldMask camel/snake reversibility, Struct/Value/ListValue/Any conversions.",
+		Quick:      all("./encoding/protojson"),
+		Thorough:   all("./..."),
+		Run: func(c *Ctx) {
+			c.ruleScanner("R-SCAN-DURATION", scannerSpec{key: "encoding/protojson.parseDuration", regex: jsonDurationRx, what: "Duration JSON string"})
+			c.ruleWKTRange("R-WKT-RANGE")
+			c.ruleWKTTable("R-WKT-TABLE")
 		},
 	})
 }
